@@ -67,6 +67,20 @@ fn const_strings() -> Vec<String> {
         out.extend(next.iter().cloned());
         level = next;
     }
+    // every ASCII character and a set of non-ASCII ones (digits of other scripts, superscripts,
+    // fractions, full-width forms, blanks) alone, after "1", before "1", after "-" and between digits
+    let mut chars: Vec<char> = (0u8..128).map(|b| b as char).collect();
+    chars.extend(['\u{0663}', '\u{0967}', '\u{00b3}', '\u{00bd}', '\u{2167}', '\u{ff11}', '\u{00e9}', '\u{00a0}', '\u{2003}', '\u{1d7d9}', '\u{0661}']);
+    for c in chars {
+        out.push(format!("{c}"));
+        out.push(format!("1{c}"));
+        out.push(format!("{c}1"));
+        out.push(format!("-{c}"));
+        out.push(format!("1{c}0"));
+        out.push(format!("{c}{c}"));
+    }
+    out.sort();
+    out.dedup();
     out
 }
 
